@@ -1,0 +1,24 @@
+//go:build verif
+
+// Contracts for slice.go (C18: the merged lists hold exactly the union, no duplicates), checked by nsqvc.
+// Comment-only file.
+
+package stringy
+
+//@ pred in(s []string, n int, x string) := exists k int :: {s[k]} 0 <= k && k < n && s[k] == x
+//@ pred nodup(s []string, n int) := forall i int, j int :: {s[i], s[j]} 0 <= i && i < j && j < n ==> s[i] != s[j]
+
+// Add: the old entries stay in place, `a` is present afterwards, and it is appended only if it was missing.
+//@ func Add(s []string, a string) []string
+//@   props C18
+//@   ensures[kept] len(result) >= len(s) && forall k int :: {result[k]} 0 <= k && k < len(s) ==> result[k] == old(s[k])
+//@   ensures[present] in(result, len(result), a)
+//@   ensures[only-if-missing] len(result) == len(s) || (len(result) == len(s) + 1 && result[len(s)] == a && !old(in(s, len(s), a)))
+//@   ensures[no-dup] old(nodup(s, len(s))) ==> nodup(result, len(result))
+//@   modifies elems(s)
+//@   loop 0
+//@     invariant[missing-so-far] forall k int :: {s[k]} 0 <= k && k <= rangeindex && k < len(s) ==> s[k] != a
+
+// Uniq / Union: contracts drafted (DELIVER/drafts/stringy_uniq.contract.txt) but NOT registered: the proof
+// needs the invariant "r is nil or freshly allocated", and the engine's loop-head havoc wrongly assumes that
+// every local slice was allocated before the loop (see NOTES.md, ENGINE BUG 1), which makes the proof vacuous.
